@@ -353,6 +353,34 @@ class C15(Prop):
                           f"# bigwigmerge of a {len(names)}-chromosome bigWig (default options) with a 6-chromosome one\n# command: {' '.join(p.args)}\n"
                           f"# chromosome {bad}: output carries {sorted(got.get(bad, {}).items())[:8]}, the per-base sum of the inputs is {sorted(want[bad].items())[:8]}\n"
                           f"# exit {p.returncode} {p.stderr.strip()[:200]}\n")
+        # more inputs than the tool opens at once (it merges in batches of fewer than a thousand descriptors): 980 and 1955 inputs —
+        # the small 6-chromosome file named again and again in a list — must sum like any other number of inputs
+        small_bw = b_bg[:-9] + ".bw"
+        if os.path.exists(small_bw):
+            for count in (980, 1955) if tier == "thorough" else (980,):
+                lp = os.path.join(d, f"many_inputs_{count}.txt")
+                open(lp, "w").write((small_bw + "\n") * count)
+                outp = os.path.join(d, f"many_inputs_{count}.bedGraph")
+                try:
+                    p = subprocess.run([repo_bin("bigwigmerge"), "-l", lp, outp], capture_output=True, text=True, timeout=600)
+                except subprocess.TimeoutExpired:
+                    rep.violation(f"cli_merge_{count}_inputs.txt", f"# bigwigmerge -l <{count} inputs> did not return within 600 s\n")
+                    continue
+                checked += 1
+                rep.tag("cli_more_inputs_than_descriptors_per_batch")
+                got = {}
+                if os.path.exists(outp):
+                    for ln in open(outp).read().splitlines():
+                        t = ln.split("\t")
+                        for q in range(int(t[1]), int(t[2])):
+                            got.setdefault(t[0], {})[q] = float(t[3])
+                want = {n: {q: 2.0 * count for q in range(0, data_m[n][0][1])} for n in some}
+                if got != want:
+                    badn = next((n for n in some if got.get(n) != want[n]), "?")
+                    rep.violation(f"cli_merge_{count}_inputs.txt",
+                                  f"# bigwigmerge of {count} inputs (one list file naming {small_bw} {count} times)\n# command: {' '.join(p.args)}\n"
+                                  f"# chromosome {badn}: output carries {sorted(got.get(badn, {}).items())[:4]}, the per-base sum of the inputs is {sorted(want.get(badn, {}).items())[:4]}\n"
+                                  f"# exit {p.returncode} {p.stderr.strip()[:200]}\n")
         rep.coverage["cli_merge_runs"] = checked
 
 
